@@ -179,6 +179,15 @@ def last_lines(text, n=25):
     return "\n".join(l[:400] for l in lines[-n:])
 
 
+def first_error(text, n=30):
+    """The compiler's first `error` with the lines that follow it (else the last lines)."""
+    lines = text.splitlines()
+    for i, line in enumerate(lines):
+        if line.startswith("error"):
+            return "\n".join(l[:400] for l in lines[i:i + n])
+    return last_lines(text, n)
+
+
 def failed_checks(out):
     """The 'Failed Checks:' block of Kani's summary."""
     res = []
@@ -302,7 +311,17 @@ def main():
     scratch = None
     try:
         if chosen:
-            scratch = build_scratch(repo)
+            try:
+                scratch = build_scratch(repo)
+            except (OSError, shutil.Error) as exc:
+                for e in chosen:
+                    r = {"harness": e["name"], "status": "error", "seconds": 0.0,
+                         "bound": e.get("bound", ""), "complete": bool(e.get("complete", False)),
+                         "property": e.get("property", []), "counterexample": None,
+                         "detail": "cannot build the scratch copy of %s: %s" % (repo, exc)}
+                    emit(r)
+                    results.append(r)
+                return 2
             workdir = os.path.join(scratch, "microscpi")
             log("scratch copy of %s in %s" % (repo, scratch))
 
@@ -312,7 +331,7 @@ def main():
             log("codegen: %.1f s, exit code %s" % (secs, rc))
             if rc != 0:
                 detail = "cargo kani --only-codegen: " + ("timeout" if rc is None else "exit code %s" % rc)
-                detail += "\n" + last_lines(out, 40)
+                detail += "\n" + first_error(out)
                 for e in chosen:
                     r = {"harness": e["name"], "status": "error", "seconds": round(secs, 1),
                          "bound": e.get("bound", ""), "complete": bool(e.get("complete", False)),
